@@ -274,28 +274,36 @@ if "marker" in CASE:
     LOOPS = {int(x) for x in re.findall(r"% (?:for \\w+ in|while) m(\\d+)\\(\\)", text)}
     FILTERS = {int(x) for x in re.findall(r"(?:filter=\\"|\\| )m(\\d+)\\(\\)", text)}
     ctx = {"m%d" % j: mk(j) for j in range(1, 40)}
+    AUX = {"/base": "${next.body()}", "/lib": "<%def name='somedef(a)'>${caller.body()}</%def>", "/inc": "inc"}
+    if CASE["template"] == "tags":
+        URIS = {1: "/base", 2: "/lib", 4: "/inc"}
+        for j, u in URIS.items():
+            ctx["m%d" % j] = (lambda jj, uu: (lambda *a, **kw: (_ for _ in ()).throw(Boom("marker %d" % jj)) if jj == k else uu))(j, u)
+    import builtins
+    for kk, vv in ctx.items(): setattr(builtins, kk, vv)     # signature defaults and <%! %> code run at module level
+    from mako.lookup import TemplateLookup
     for how in ("string", "file"):
         import tempfile, os, shutil
         base = tempfile.mkdtemp(prefix="c12")
         try:
             if how == "string":
-                t = Template(tmpl, imports=["from __main__ import *"] if False else None)
+                lk = TemplateLookup()
+                for u, src_ in AUX.items(): lk.put_string(u, src_)
+                lk.put_string("/t.html", tmpl)
             else:
-                fn = os.path.join(base, "t.html"); open(fn, "w").write(tmpl)
-                t = Template(filename=fn, module_directory=os.path.join(base, "m"))
+                for u, src_ in list(AUX.items()) + [("/t.html", tmpl)]:
+                    open(os.path.join(base, u.lstrip("/")), "w").write(src_)
+                lk = TemplateLookup([base], module_directory=os.path.join(base, "m"))
+            t = lk.get_template("/t.html")
             try:
-                import builtins
-                for kk, vv in ctx.items(): setattr(builtins, kk, vv)     # module-level <%! %> code sees them too
                 t.render(**ctx)
                 print(how, ": marker did not raise"); continue
             except Boom:
                 tb = exceptions.RichTraceback()
-                recs = [r for r in tb.records if r[4] is not None]
+                recs = [r for r in tb.records if r[4] is not None and (r[4].endswith("t.html"))]
                 got = recs[-1][5] if recs else None
                 print(how, ": marker m%d is on template line %d, RichTraceback reports line %s (%r)" % (k, target, got, recs[-1][6] if recs else None))
                 if got != target: bad = "traceback frame mapped to template line %s, the raising construct is on line %d" % (got, target)
-            finally:
-                for kk in ctx: delattr(builtins, kk)
         finally:
             shutil.rmtree(base, ignore_errors=True)
 elif "source" in CASE:
